@@ -33,6 +33,7 @@ def wellformed(cmd):
 
 class C07(MotionMonitor):
     prop = "C07"
+    quick_cases = 2500
     rule = ("value-hostile programs (relative round-off chains, tiny extrusions, inch conversion, coordinates up to 1e12, feed rates "
             "1e-5..1e19, merged deferred commands with tiny/huge/valueless parameters); every command the filter generated (not the "
             "input command, not a configured script line, not a deferred first/last copy) must match the grammar with distinct "
